@@ -105,6 +105,68 @@ func formatCell(c *table.Cell) (string, error) {
 	return strings.TrimSpace(c.String()), nil
 }
 
+// compareCells compares two cells by value: numbers numerically, time anchors
+// as instants, text and extracted IDs and types lexicographically. It returns a
+// negative, zero or positive number, and false if the cells do not hold values
+// that can be compared that way.
+func compareCells(c1, c2 *table.Cell) (int, bool) {
+	sign := func(less, greater bool) int {
+		switch {
+		case less:
+			return -1
+		case greater:
+			return 1
+		}
+		return 0
+	}
+	text := func(c *table.Cell) (string, bool) {
+		if c.S != nil {
+			return *c.S, true
+		}
+		if c.L != nil && c.L.Type() == literal.Text {
+			t, err := c.L.Text()
+			return t, err == nil
+		}
+		return "", false
+	}
+	if t1, ok1 := text(c1); ok1 {
+		if t2, ok2 := text(c2); ok2 {
+			return sign(t1 < t2, t1 > t2), true
+		}
+		return 0, false
+	}
+	if c1.T != nil && c2.T != nil {
+		return sign(c1.T.Before(*c2.T), c1.T.After(*c2.T)), true
+	}
+	if c1.L != nil && c2.L != nil && c1.L.Type() == c2.L.Type() {
+		switch c1.L.Type() {
+		case literal.Int64:
+			v1, _ := c1.L.Int64()
+			v2, _ := c2.L.Int64()
+			return sign(v1 < v2, v1 > v2), true
+		case literal.Float64:
+			v1, _ := c1.L.Float64()
+			v2, _ := c2.L.Float64()
+			return sign(v1 < v2, v1 > v2), true
+		}
+	}
+	return 0, false
+}
+
+// evaluate applies the comparison operation to the outcome of a comparison.
+func (o OP) evaluate(cmp int) (bool, error) {
+	switch o {
+	case EQ:
+		return cmp == 0, nil
+	case LT:
+		return cmp < 0, nil
+	case GT:
+		return cmp > 0, nil
+	default:
+		return false, fmt.Errorf("boolean evaluation requires a boolean operation; found %q instead", o)
+	}
+}
+
 // evaluationNode represents the internal representation of one expression.
 type evaluationNode struct {
 	operation OP
@@ -131,6 +193,10 @@ func (e *evaluationNode) Evaluate(r table.Row) (bool, error) {
 	leftBinding, rightBinding, err := eval()
 	if err != nil {
 		return false, err
+	}
+
+	if cmp, ok := compareCells(leftBinding, rightBinding); ok {
+		return e.operation.evaluate(cmp)
 	}
 
 	// comparable string expressions for left and right tokens.
@@ -183,6 +249,9 @@ func (e *comparisonForLiteral) Evaluate(r table.Row) (bool, error) {
 
 	if leftBinding.L != nil && leftBinding.L.Type() != rightLiteral.Type() {
 		return false, nil
+	}
+	if cmp, ok := compareCells(leftBinding, &table.Cell{L: rightLiteral}); ok {
+		return e.operation.evaluate(cmp)
 	}
 
 	// comparable string expressions for left and right tokens.
